@@ -129,12 +129,16 @@ Qed.
 (* ---- SpectralAnalyzer.spectrum_fourier on complex data: linspace(-Fs/2, Fs/2, n) is not the
         axis of fftshift(fft(x)) — both parities (known finding) *)
 Theorem C05_fourier_complex_refuted :
+  (forall Fs m, ~ Fs == 0 -> (1 <= m)%nat ->
+     ~ leq (fourier_complex_freqs Fs (m + 1)) (true_shifted_bins Fs (m + 1))) /\
   (exists Fs n, Nat.even n = true /\ ~ leq (fourier_complex_freqs Fs n) (true_shifted_bins Fs n)) /\
   (exists Fs n, Nat.even n = false /\ ~ leq (fourier_complex_freqs Fs n) (true_shifted_bins Fs n)).
 Proof.
+  split; [exact fourier_complex_wrong|].
   split; [exists 10, 4%nat|exists 10, 5%nat]; (split; [reflexivity|]);
     apply leqb_false_not_leq; [exact w_fourier_complex_even|exact w_fourier_complex_odd].
 Qed.
+Print Assumptions C05_fourier_complex_refuted.
 
 (* ---- GrangerAnalyzer.frequencies = get_freqs(Fs, n_freqs) reaches Fs/2, the causality spectra
         are evaluated on freqz's grid k*pi/(n_freqs//2+1) which stops short of pi: never equal *)
